@@ -2165,7 +2165,7 @@ DLLIMPORT int cfg_setnint(cfg_t *cfg, const char *name, long int value, unsigned
 	cfg_opt_t *opt;
 
 	opt = cfg_getopt(cfg, name);
-	if (opt && opt->validcb2 && (*opt->validcb2)(cfg, opt, (void *)&value) != 0)
+	if (opt && opt->type == CFGT_INT && opt->validcb2 && (*opt->validcb2)(cfg, opt, (void *)&value) != 0)
 		return CFG_FAIL;
 
 	return cfg_opt_setnint(opt, value, index);
@@ -2200,7 +2200,7 @@ DLLIMPORT int cfg_setnfloat(cfg_t *cfg, const char *name, double value, unsigned
 	cfg_opt_t *opt;
 
 	opt = cfg_getopt(cfg, name);
-	if (opt && opt->validcb2 && (*opt->validcb2)(cfg, opt, (void *)&value) != 0)
+	if (opt && opt->type == CFGT_FLOAT && opt->validcb2 && (*opt->validcb2)(cfg, opt, (void *)&value) != 0)
 		return CFG_FAIL;
 
 	return cfg_opt_setnfloat(opt, value, index);
@@ -2278,7 +2278,7 @@ DLLIMPORT int cfg_setnstr(cfg_t *cfg, const char *name, const char *value, unsig
 	cfg_opt_t *opt;
 
 	opt = cfg_getopt(cfg, name);
-	if (opt && opt->validcb2 && (*opt->validcb2)(cfg, opt, (void *)value) != 0)
+	if (opt && opt->type == CFGT_STR && opt->validcb2 && (*opt->validcb2)(cfg, opt, (void *)value) != 0)
 		return CFG_FAIL;
 
 	return cfg_opt_setnstr(opt, value, index);
